@@ -79,6 +79,26 @@ class SymBuilder:
         cv = self.world.lookup(qual)
         return self.ctx.call(cv, list(args), kwargs)
 
+    def specfn(self, fn):
+        """a spec function as a callable value (its source is interpreted like every other spec)"""
+        from .contract import spec_source
+        from .interp import ModuleVal
+        node = spec_source(fn)
+        mv = ModuleVal("<spec>", "<spec>")
+        mv.is_pkg = False
+        fv = FuncVal(node, mv, node.name, None, None)
+        fv.defaults, fv.kw_defaults, fv.is_gen = [], [], False
+        verifier_snapshot = self.ctx.world.verifier.snapshot
+        ctx = self.ctx
+
+        def call(cx, args, kw):
+            cx.spec_mode += 1
+            try:
+                return verifier_snapshot(cx, cx.call_func(fv, args, kw))
+            finally:
+                cx.spec_mode -= 1
+        return SpecFn(node.name, call)
+
     def assume(self, cond):
         if isinstance(cond, Sym):
             self.ctx.assume(ops.truth_term(cond))
